@@ -126,6 +126,8 @@ def run_pair(I, expr, doc):
             vals = I.call("jq::eval::QueryResult::<'_, W>::collect_owned", [r], gen={"W": "std::vec::Vec<u64>"})
         else:
             r = I.call("jq::eval_generic::eval_with_cursor", [tmp_ref(expr), cur], gen={"C": "json::light::JsonCursor<'a, std::vec::Vec<u64>>"})
+            # lazy stages (`map`, `keys`, ...) raise their errors only when drained: normalise first, as every consumer does
+            r = I.call("jq::eval_generic::GenericResult::<V>::materialize_lazy", [r], gen={"V": "json::light::StandardJson<'a, std::vec::Vec<u64>>"})
             end = ending(I, r)
             vals = I.call("jq::eval_generic::GenericResult::<V>::collect_owned", [r], gen={"V": "json::light::StandardJson<'a, std::vec::Vec<u64>>"})
         out.append(([canon(ov(I, v)) for v in vals], end))
@@ -137,10 +139,10 @@ def rule_evaluators(progs, tier, name="JQEVAL", floor_share=0.5):
     for cfg, P in progs.items():
         res = RuleResult(name, cfg)
         out.append(res)
-        I = Interp(P, max_steps=30000000, max_depth=500)
+        I = Interp(P, max_steps=500000, max_depth=500)
         I.features = {"avx2": True, "bmi2": True, "sse4.1": True, "sse4.2": True, "ssse3": True, "sse2": True}
-        progs_ = PROGRAMS if tier == "thorough" else PROGRAMS
-        inputs = INPUTS if tier == "thorough" else INPUTS[::2] + INPUTS[15:17]
+        progs_ = PROGRAMS if tier == "thorough" else PROGRAMS[::2] + ["..", "map(.+1)", "reverse", "unique", "flatten"]
+        inputs = INPUTS if tier == "thorough" else ["null", "[3,1,2]", '{"a":1,"b":2}', '{"a":1,"a":2}', '"abc"', '[1,"a",null,true,{"a":1},[2]]', '{"a":{"b":[1,2]}}', "1.5"]
         n_ok = n_skip = n_parse_fail = 0
         skipped = {}
         examples = {}
@@ -157,12 +159,15 @@ def rule_evaluators(progs, tier, name="JQEVAL", floor_share=0.5):
                 n_parse_fail += 1
                 continue
             expr = pr.fields[0]
+            import os as _os, time as _time
+
+            t_prog = _time.time()
             for doc in inputs:
                 I.statics.clear()
                 try:
                     (lv, le), (gv, ge) = run_pair(I, expr, doc)
                 except Panic as e:
-                    res.bad("%s:panic:%s" % (name, prog), "evaluating `%s` on %s panics: %s" % (prog, doc[:60], e))
+                    res.bad("%s:panic:%s@%s" % (name, prog, doc), "evaluating `%s` on %s panics: %s" % (prog, doc[:60], e))
                     continue
                 except (Unsupported, KeyError, IndexError, AttributeError, TypeError, RecursionError, ValueError, OverflowError) as e:
                     n_skip += 1
@@ -172,8 +177,11 @@ def rule_evaluators(progs, tier, name="JQEVAL", floor_share=0.5):
                     skipped[k_] = skipped.get(k_, 0) + 1
                     continue
                 n_ok += 1
+                if _os.environ.get("VERIF_JQEVAL_TRACE") and _time.time() - t_prog > 20:
+                    print("SLOW", prog, doc[:30], round(_time.time() - t_prog, 1), flush=True)
+                    t_prog = _time.time()
                 if lv != gv or le != ge:
-                    res.bad("%s:%s" % (name, prog), "`%s` on %s: library gives %s ending %r, the CLI evaluator gives %s ending %r" % (prog, doc[:80], repr(lv)[:200], le, repr(gv)[:200], ge))
+                    res.bad("%s:%s@%s" % (name, prog, doc), "`%s` on %s: library gives %s ending %r, the CLI evaluator gives %s ending %r" % (prog, doc[:80], repr(lv)[:200], le, repr(gv)[:200], ge))
         res.cells += n_ok
         res.engines += 2
         total = n_ok + n_skip
